@@ -298,14 +298,17 @@ Section Shape.
     let* n := is_square_u (length a) in
     Some (map (fun i => nth (i * n + i) a d) (seq 0 n)).
 
-  (** comparisons.  [rel_diff] is the repaired, sign-aware one of [vec.rs]; an infinite difference ([diff.is_infinite()]:
-      [diff] is an absolute value, so it is infinite exactly when it equals [1 / 0]) is returned as it is -- for [inf] and
-      [-inf] the quotient would be [inf / inf = NaN], which no tolerance test rejects *)
+  (** comparisons.  [rel_diff] is the repaired, sign-aware one of [vec.rs]; an infinite difference ([diff.is_infinite()],
+      which core writes [(self == f64::INFINITY) | (self == f64::NEG_INFINITY)], the infinities being [1 / 0] and its
+      negation) is returned as it is -- for [inf] and [-inf] the quotient would be [inf / inf = NaN], which no tolerance
+      test rejects.  (Written exactly as the source since the fourth round of Tie A: Generated/compare_loops.v.) *)
+  Definition is_infinite (x : T) : bool :=
+    orb (eqb O x (div O (one O) (zero O))) (eqb O x (neg O (div O (one O) (zero O)))).
   Definition rel_diff (x y : T) : T :=
     if eqb O x d then abs O y
     else if eqb O y d then abs O x
     else let diff := abs O (sub O x y) in
-         if eqb O diff (div O (one O) (zero O)) then diff
+         if is_infinite diff then diff
          else div O diff (fmin O (abs O x) (abs O y)).
   Definition close_to_v (x y : list T) (tol : T) : bool :=
     if negb (length x =? length y) then false
